@@ -2,6 +2,10 @@
 \* cost assignments that read $n x query cache lru x all sequences of 2 requests ($n = 3) x {limit = Cx-1, limit = Cx} x
 \* context {live, cancelled before pricing, deadline passed before pricing, becomes done in the k-th call of a custom
 \* complexity function, k = 1..NCalls}; pricing is call by call (Arrive / PriceCall / DecideReq).
+\* Measured: 22 initial states, 13,422 distinct states, depth 13, 3,096 maximal histories printed; 1 worker ~20-25 s.
+\* -coverage 1: GInit 22, Arrive 1692, PriceCall 8352, DecideReq 3356; Request and Other 0 (they are the "hist" mode's
+\* atomic steps, disabled in this mode - as Arrive/PriceCall/DecideReq are in MC_ComplexityGate*.cfg).
+\* Teeth (by hand): Req pricing a request with a done context at 0 -> CtxIndependent and GateIndependent violated.
 CONSTANTS
   MaxH = 2
   MaxD = 1
